@@ -457,6 +457,9 @@ def run_prod(res, work, tier, seed):
                 pre[-1] = FE
             r["cfg"]["pre"] = pre
             r["cfg"]["pre_m"] = rng.choice(["copy", "borrow"])
+            # ... possibly behind a placeholder of the caller's own that is only filled once the codec is done
+            if rng.random() < 0.4:
+                r["cfg"]["pre_hole"] = rng.choice([1, 2, 4])
         # Decoder::take_iovec: stop the decoder phase after a random number of its operations
         if rng.random() < 0.15 and len(r["cfg"]["input"]) <= 70000:
             fins = [i for i, op in enumerate(r["ops"]) if op["ev"] == "finish"]
